@@ -382,7 +382,7 @@ func BuildGroup(query *Query, group *sqlparser.GroupBy) error {
 	for _, i := range group.Exprs {
 		qualifier, name, err := BuildColumnName(i)
 		if err != nil {
-			return nil
+			return err
 		}
 		if len(qualifier) == 0 {
 			query.groupDefinition[name] = true
